@@ -333,6 +333,9 @@ def scale_entry(rs, ru, rk, kind, what, steps=(2, 4)):
                                  rich=False, spec=spec)
     if what == "cells4k":
         dims = rs.choice([[65, 64, 1], [17, 16, 16], [4200, 1, 1], [41, 10, 11]])
+    elif what == "grid3d":
+        # genuinely three-dimensional grids with unequal sides (every axis at least 3 cells long)
+        dims = rs.choice([[5, 3, 3], [3, 4, 3], [7, 4, 3], [4, 3, 5], [6, 5, 4], [3, 5, 4]])
     else:
         dims = rs.choice([[200, 170, 1], [33000, 1, 1], [35, 32, 30]])
     nc = dims[0] * dims[1] * dims[2]
@@ -342,7 +345,7 @@ def scale_entry(rs, ru, rk, kind, what, steps=(2, 4)):
     cenv = [rs.randint(0, 1) for _ in range(nc)]
     st = [float(rs.randint(0, 40)) for _ in range(nc)]
     ch = [0] * nc
-    for _ in range(max(3, nc // 500)):
+    for _ in range(max(3, nc // 500) if what != "grid3d" else rs.randint(0, 2)):
         ch[rs.randint(0, nc - 1)] = 1
     kdec = rs.loguniform(0.02, 0.2) * Dd / (h_ * h_)
     spec = {"envs": ["cyt", "mem"],
